@@ -246,6 +246,19 @@ where
             return Some(NonNull::from(self).cast());
         }
 
+        // "Is this an `Option::None` subscriber?" is a question about the
+        // whole stack: it holds nothing only if the subscriber is absent
+        // *and* so is everything below it (a bare `Registry` holds no
+        // subscribers at all).
+        if id == TypeId::of::<super::NoneLayerMarker>() {
+            let outer = self.subscriber.downcast_raw(id);
+            return if self.inner_is_registry {
+                outer
+            } else {
+                outer.and(self.inner.downcast_raw(id))
+            };
+        }
+
         self.subscriber
             .downcast_raw(id)
             .or_else(|| self.inner.downcast_raw(id))
@@ -398,6 +411,15 @@ where
                     outer.and(inner)
                 }
             }
+
+            // "Is this an `Option::None` subscriber?" is a question about the
+            // whole tree: a tree with a `None` on one side and a real
+            // subscriber on the other is not absent. Only if *both* sides
+            // are `None` does the tree behave as if it were not there.
+            id if id == TypeId::of::<super::NoneLayerMarker>() => self
+                .subscriber
+                .downcast_raw(id)
+                .and(self.inner.downcast_raw(id)),
 
             // Otherwise, try to downcast both branches normally...
             _ => self
